@@ -8265,6 +8265,29 @@ def main():
            expect_sig="(&self, other: &[u8]) -> std::cmp::Ordering", force_option=True,
            subst={"self.0": ("mine", BYTES)})
 
+    # the generated code takes a key for its byte list: `from_bytes` (what `load_key_data` and `read_piece` build a key
+    # from) and `as_bytes` (what is stored and hashed) must be the plain copy / the plain view of the newtype's vector
+    for sfx, ty_ in (("String", "DbString"), ("Bytes", "DbBytes"), ("U64", "DbU64"), ("I64", "DbI64"), ("Vu64", "DbVu64")):
+        rel_ = KT + "kt_%s.rs" % ty_.lower()
+        hdr_ = "impl DbMapKeyType for " + ty_
+        ms_ = io_find_methods(repo, feats, rel_, hdr_)
+        for m_, body_ in (("from_bytes", "fn from_bytes(bytes: &[u8]) -> Self { %s(bytes.to_vec()) }" % ty_),
+                          ("as_bytes", "fn as_bytes(&self) -> &[u8] { self.0.as_slice() }")):
+            cands_ = ms_.get(m_, [])
+            if len(cands_) != 1 or toks_eq_renamed([v for _k, v in cands_[0][0]], [v for _k, v in tokenize(body_)]) is None:
+                fail("%s::<%s>::%s is not `%s` (the translation takes a key for its byte list)" % (rel_, hdr_, m_, body_))
+        # the placement hash of a key is the default `HashValue::hash_value` over the derived `Hash` of the newtype
+        # (`Vec<u8>`: length, then the bytes — `Abyss.hashValue`): no key type may override either
+        io_pin_tokens(repo, rel_, "pub struct " + ty_,
+                      "#[derive(Debug, Default, Clone, PartialEq, PartialOrd, Eq, Ord, Hash)] pub struct %s(Vec<u8>);" % ty_,
+                      "the definition of `%s`" % ty_)
+        io_pin_tokens(repo, rel_, "impl HashValue for " + ty_, "impl HashValue for %s {}" % ty_, "`impl HashValue for %s`" % ty_)
+    io_pin_tokens(repo, "src/lib.rs", "pub trait HashValue",
+                  'pub trait HashValue: Hash { fn hash_value(&self) -> u64 { use std::hash::Hasher; #[cfg(feature = "std_default_hasher")] '
+                  'let mut hasher = std::collections::hash_map::DefaultHasher::new(); #[cfg(not(feature = "std_default_hasher"))] '
+                  'let mut hasher = MyHasher::default(); self.hash(&mut hasher); hasher.finish() } }',
+                  "the trait `HashValue` with its default `hash_value`")
+
     def conv(lean, file_ty, impl, sig_rs, params, sig_lean, arg=None, **kw):
         subst = {arg + ".0": ("k", BYTES)} if arg else {}
         return fn(lean, KT + "kt_%s.rs" % file_ty.lower(), "from", params, sig_lean, impl=impl, expect_sig=sig_rs,
